@@ -143,6 +143,11 @@ func verifReadsCorrect(acc eds.AccessorStreamer, cells [][]libshare.Share, k int
 	}
 	shs, err := acc.Shares(ctx)
 	nd.Assert(err == nil && verifSame(shs, q1), "served-block-is-complete-and-correct")
+	// the streamed original square, decoded the way a receiving peer does
+	rd, err := acc.Reader()
+	nd.Assert(err == nil, "served-block-is-complete-and-correct")
+	streamed, err := eds.ReadShares(rd, libshare.ShareSize, k)
+	nd.Assert(err == nil && verifSame(streamed, q1), "served-block-is-complete-and-correct")
 	nd.Assert(acc.Close() == nil, "served-block-is-complete-and-correct")
 }
 
